@@ -264,6 +264,16 @@ void run(vexec::Args& a, vexec::Out& o, bool calc)
    dump_results(model, cfg, o);
    mssm_script::dump_amu(model, o, "r.");
    mssm_script::dump_problems(model, o, "");
+   // the values without tan(beta) resummation as the public API gives them when it is allowed to produce output
+   // (the detailed report prints a number on these lines even if the non-resummed spectrum has a problem)
+   try {
+      gm2calc::MSSMNoFV_onshell forced(model);
+      forced.do_force_output(true);
+      o.kv("r.amu1L_nontb_forced", gm2calc::calculate_amu_1loop_non_tan_beta_resummed(forced));
+      o.kv("r.amu2L_nontb_forced", gm2calc::calculate_amu_2loop_non_tan_beta_resummed(forced));
+   } catch (...) {
+      o.ks("r.nontb_forced.exc", vexec::exception_class_of_current());
+   }
 }
 
 } // anonymous namespace
